@@ -1,4 +1,4 @@
--- PINNED by bin/pin_tables: copy of Gen/Dispatch.lean as generated from /repo at d2e5b40 — regenerate, do not edit
+-- PINNED by bin/pin_tables: copy of Gen/Dispatch.lean as generated from /repo at b71d902 — regenerate, do not edit
 namespace Ggql.Pinned
 def dispatchOrder : List String := ["resolver", "any", "reflect"]
 def opFallbackAnyName : Bool := false
@@ -32,6 +32,7 @@ def argsSortedOnce : Bool := false
 def condByIdentity : Bool := false
 def anonAmongOthers : Bool := false
 def metaArgsUnchecked : Bool := false
+def ptrValueDistinct : Bool := false
 def reflectOptionalRefused : Bool := false
 def inputDefaultsRaw : Bool := true
 def listNotCoerced : Bool := false
@@ -51,7 +52,7 @@ def argSkeleton : List (String × String) := [
   ("Root.formReflectArgs", "d5fdfd091c17"),
   ("Root.replaceArgVars", "8e6170986780"),
   ("Root.resolveField", "d8dcc1486960"),
-  ("Root.resolveReflect", "3ca8b8cb64d4"),
+  ("Root.resolveReflect", "15757bc1bc70"),
   ("checkReflectArgs", "2fe173b3f604")
 ]
 end Ggql.Pinned
